@@ -261,11 +261,45 @@ def depth2_case(rng, fermi, with_conj=True, dagger=False):
                 nontrivial=True, op="fuse", triggers=[]), env2, steps
 
 
+def conj_history_case(rng, fermi):
+    """fuse x, then fuse its conjugate with the same groups (the index objects of the conjugate derive from ones
+    that have been through the fuse machinery), unfuse again.  Oracle: every array valid; abelian: the second
+    fuse equals the conjugate of the first."""
+    sym = rng.choice(["U1", "Z4", "U1U1", "Z2", "Z2Z2"])
+    static = rng.random() < 0.6
+    dtype = rng.choice(["float64", "complex128"])
+    x = gen.rand_array(rng, sym, ndim=rng.randint(2, 4), fermi=fermi, static=static, dtype=dtype, keep=rng.choice([0.6, 1.0]),
+                       max_charges=3, max_size=2)
+    g = rng.sample(range(x.ndim), rng.randint(2, x.ndim))
+    p = {"groups": [g]} if fermi else {"groups": [g], "mode": rng.choice(["insert", "concat"])}
+    steps = [{"out": ["f"], "op": "fuse", "in": ["x"], "params": p},
+             {"out": ["xc"], "op": "conj", "in": ["x"], "params": {}},
+             {"out": ["fc"], "op": "fuse", "in": ["xc"], "params": p},
+             {"out": ["uc"], "op": "unfuse_all", "in": ["fc"], "params": {}}]
+    env = {"x": x}
+    res, env2 = impl.run_prog(env, steps)
+    orc = None
+    if not all("ok" in r for r in res):
+        orc = "fuse / conj / fuse history raised: " + str([r.get("msg") for r in res if "raise" in r][:1])
+    else:
+        for st in steps:
+            v = oracle.py_valid(env2[st["out"][0]])
+            if v:
+                orc = f"after fusing x, {st['op']} on the conjugate's side returned an invalid array: {v}"
+                break
+        if orc is None and not fermi and not same_value(env2["fc"], env2["f"].conj()):
+            orc = "fuse(x.conj()) after fuse(x) differs from fuse(x).conj() (values or index tables)"
+    meta = dict(sym=sym, fermi=fermi, static=static, kind="conj-history")
+    return dict(case=_mk_case(env, steps), impl=stream.strip_py(res), oracle=orc, meta=meta,
+                nontrivial=True, op="fuse", triggers=[]), env2, steps
+
+
 def gen_cases(seed, chunk, n, tier):
     rng = random.Random(seed * 7919 + chunk * 104729 + 5)
     out = []
     for _ in range(max(1, n // 10)):
         out.append(depth2_case(rng, fermi=rng.random() < 0.4, with_conj=rng.random() < 0.7)[0])
+        out.append(conj_history_case(rng, fermi=rng.random() < 0.4)[0])
     ntw = max(1, n // 6)
     for _ in range(ntw):
         # fuse cache on/off over near-identical arrays of different symmetry, in random order
